@@ -27,7 +27,7 @@ from vf.core import h64
 
 PROP = "C09"
 SHARDS = {"quick": 16, "thorough": 16}
-TIME_CAP = {"quick": 45, "thorough": 780}
+TIME_CAP = {"quick": 40, "thorough": 780}
 REQUIRED = ["histories", "histories_S0", "histories_S1", "histories_S2", "histories_S3", "histories_S4", "histories_long", "long_history_steps",
             "observations_hot", "reset_oracle_evals", "cold_oracle_evals", "cold_queries_sent", "cold_fresh_interpreter_crosschecks",
             "ops_applied", "effective_op_observed", "distinct_ops_exercised"]
@@ -517,9 +517,11 @@ def run(env):
         if env.shard == 0:
             env.sample({"shape": shape, "steps": [strip(s) if is_op(s) else s for s in steps[:12]], "n_steps": len(steps)}, cap=5)
         pending.append((shape, steps, out))
-        if len(pending) >= (400 if shape != "long" else 16):
+        if len(pending) >= ((250 if env.quick() else 600) if shape != "long" else 16):
             flush()
 
+    if env.shard == 0:
+        reset_call_diagnostic(env)
     # the batched cold oracle against truly fresh interpreters (one process per query, no fork at all)
     n_x = (2 if env.shard < 6 else 0) if env.quick() else 6
     xrng = random.Random(h64("c09-x", env.seed, env.shard))
@@ -541,7 +543,7 @@ def run(env):
         if shape == "S4" and P.op_group(steps[0]) == P.op_group(steps[2]) and steps[1] == steps[3]:
             return 0
         if shape == "S0":
-            return 1 if steps[0]["type"] != steps[1]["type"] else 3
+            return 0 if steps[0]["type"] != steps[1]["type"] else 3
         if shape == "S3" and P.op_group(steps[1]) == P.op_group(steps[2]):
             return 1
         return 2
@@ -565,8 +567,8 @@ def run(env):
     flush()
     # 2. long random histories (count-based budget; at most 40% of the time cap)
     import time as _time
-    for _ in range(env.n(48, 1600)):
-        if _time.time() - env.t0 > 0.4 * env.time_cap:
+    for k_long in range(env.n(48, 1600)):
+        if k_long > 0 and _time.time() - env.t0 > 0.4 * env.time_cap:  # at least one per shard, whatever the load
             env.count("long_histories_stopped_by_time_share")
             break
         execute("long", long_history(env.rng))
@@ -588,8 +590,6 @@ def run(env):
         env.count("pool|observations", len(P.ALL_OBS))
     for k in exercised:
         env.count("opseen|" + hashlib.blake2b(k.encode(), digest_size=6).hexdigest())
-    if env.shard == 0:
-        reset_call_diagnostic(env)
 
 
 def finish_coverage(cov, counters, tier):
